@@ -621,8 +621,8 @@ CMR_ERROR balancedTestConnected(
 
 int compareBlockComponents(const void* a, const void* b)
 {
-  CMR_BLOCK* ca = (CMR_BLOCK*)a;
-  CMR_BLOCK* cb = (CMR_BLOCK*)b;
+  CMR_BLOCK* ca = *((CMR_BLOCK**)a);
+  CMR_BLOCK* cb = *((CMR_BLOCK**)b);
   int min_a = (int)(ca->matrix->numRows < ca->matrix->numColumns ? ca->matrix->numRows : ca->matrix->numColumns);
   int min_b = (int)(cb->matrix->numRows < cb->matrix->numColumns ? cb->matrix->numRows : cb->matrix->numColumns);
   return min_a - min_b;
